@@ -26,4 +26,17 @@ namespace igris
     {
         return hexascii_encode((const uint8_t *)buf.data(), buf.size());
     }
+
+    std::string hexascii_decode(const igris::buffer &buf)
+    {
+        std::string ret;
+        ret.resize(buf.size() / 2);
+        ::hexascii_decode(buf.data(), (int)buf.size(), &ret[0]);
+        return ret;
+    }
+
+    std::string hexascii_decode(const std::string &str)
+    {
+        return hexascii_decode(igris::buffer(str.data(), str.size()));
+    }
 }
